@@ -121,6 +121,7 @@ type WorldOpts struct {
 	OnChain        func(c *kit.Chain)     // called right after each chain is created (e.g. to attach a tracer)
 	ExtraCoins     sdk.Coins              // extra genesis balance of every account
 	NodeConfig     map[string]interface{} // node operator configuration of every chain's node (see kit.ChainOpts)
+	Start          time.Time              // genesis time of every chain (zero: kit.Epoch)
 }
 
 // NewWorld builds n chains (2 or 3) with clients, relayers, tokens and approvals.
@@ -136,7 +137,7 @@ func NewWorldOpts(n int, seed []byte, o WorldOpts) *World {
 	w.Outsider = mk("outsider")
 	w.Accounts = []kit.Account{w.Users[0], w.Users[1], w.Rels[0], w.Rels[1], w.TSS, w.Outsider}
 	for i := 0; i < n; i++ {
-		c := kit.NewChain(fmt.Sprintf("teleport_%d-1", 9000+i), kit.ChainOpts{Seed: append([]byte{byte('A' + i)}, seed...), Accounts: w.Accounts, GenesisMutator: o.GenesisMutator, ExtraCoins: o.ExtraCoins, NodeConfig: o.NodeConfig, BalanceCoins: 1000})
+		c := kit.NewChain(fmt.Sprintf("teleport_%d-1", 9000+i), kit.ChainOpts{Seed: append([]byte{byte('A' + i)}, seed...), Accounts: w.Accounts, GenesisMutator: o.GenesisMutator, ExtraCoins: o.ExtraCoins, NodeConfig: o.NodeConfig, BalanceCoins: 1000, Start: o.Start})
 		if o.OnChain != nil {
 			o.OnChain(c)
 		}
